@@ -76,6 +76,13 @@ impl Decodable for AuditEvent {
                         to_vault_id,
                         to_secret_id,
                     });
+                } else if flags.contains(AuditLogFlags::DEVICE) {
+                    let public_key = reader.read_bytes(32).await?;
+                    let public_key: [u8; 32] = public_key
+                        .as_slice()
+                        .try_into()
+                        .map_err(encoding_error)?;
+                    self.data = Some(AuditData::Device(public_key.into()));
                 }
             }
         } else {
